@@ -1,6 +1,6 @@
 (* C19 - Protocol messages mean the same to both ends and framing always terminates.
    Only statements, each closed by [exact]; proofs are in the files imported below. *)
-From BE Require Import Model.Wire Proofs.Wire Gen.Regexes Proofs.Pins Gen.Skeleton Proofs.SkeletonPin Gen.WireFns Proofs.WireGen.
+From BE Require Import Model.Wire Proofs.Wire Gen.Regexes Proofs.Pins Gen.Skeleton Proofs.SkeletonPin Gen.WireFns Proofs.WireGen Gen.TextFns Proofs.TextGen.
 Local Open Scope string_scope.
 Local Open Scope nat_scope.
 
@@ -129,6 +129,65 @@ Theorem C19_generated_send_receive :
   forall m rest, no_cr m -> g_receive_message (g_send_message m ++ rest) = RMsg m rest.
 Proof. exact g_send_receive. Qed.
 Print Assumptions C19_generated_send_receive.
+
+(* Server.hand_to_str REGENERATED from server.py on every run (harness/gen_text.py) equals the hand model, for every hand *)
+Theorem C19_generated_hand_text_is_hand_model :
+  forall h, g_hand_to_str h = hand_to_str h.
+Proof. exact g_hand_to_str_eq. Qed.
+Print Assumptions C19_generated_hand_text_is_hand_model.
+
+(* the board line built in Server.deal, regenerated *)
+Theorem C19_generated_board_header :
+  forall n d v, g_board_header n d v = board_header n d v.
+Proof. exact g_board_header_eq. Qed.
+Print Assumptions C19_generated_board_header.
+
+Theorem C19_generated_cards_line :
+  forall (cards : seat -> list card) p, g_cards_line cards p = cards_line (formal_name p) (cards p).
+Proof. exact g_cards_line_eq. Qed.
+Print Assumptions C19_generated_cards_line.
+
+(* Client.create_bid_message regenerated from client.py *)
+Theorem C19_generated_bid_message :
+  forall c name, g_bid_message c name = bid_message c name.
+Proof. exact g_bid_message_eq. Qed.
+Print Assumptions C19_generated_bid_message.
+
+Theorem C19_generated_card_text :
+  forall c, g_card_str c = card_rs c.
+Proof. exact g_card_str_eq. Qed.
+Print Assumptions C19_generated_card_text.
+
+Theorem C19_generated_play_message :
+  forall p c, g_play_message_own p c = play_message p c false.
+Proof. exact g_play_message_own_eq. Qed.
+Print Assumptions C19_generated_play_message.
+
+Theorem C19_generated_dummy_play_message :
+  forall p c, g_play_message_dummy p c = play_message p c false.
+Proof. exact g_play_message_dummy_eq. Qed.
+Print Assumptions C19_generated_dummy_play_message.
+
+Theorem C19_generated_seated_line :
+  forall p team, g_seated_line p team = seated_line p team.
+Proof. exact g_seated_line_eq. Qed.
+Print Assumptions C19_generated_seated_line.
+
+Theorem C19_generated_teams_line :
+  forall (names : seat -> option string) ns ew,
+  names North = Some ns -> names East = Some ew -> g_teams_line names = teams_line ns ew.
+Proof. exact g_teams_line_seated. Qed.
+Print Assumptions C19_generated_teams_line.
+
+Theorem C19_generated_connect_line :
+  forall team p, g_connect_line team p = connect_line team p k_client_protocol_version.
+Proof. exact g_connect_line_eq. Qed.
+Print Assumptions C19_generated_connect_line.
+
+Theorem C19_client_protocol_version :
+  k_client_protocol_version = 18.
+Proof. exact client_protocol_version_18. Qed.
+Print Assumptions C19_client_protocol_version.
 
 (* the structure of send_message / receive_message (socket calls, loop, returns), re-extracted from the source on this run, is the one Model/Wire.v mirrors *)
 Theorem C19_framing_skeleton_is_the_modelled_one :
